@@ -152,19 +152,36 @@ def _r1(ctx, pkg):
               "only KROME (whose syntax defines comment and directive lines) filters lines", expected="['KROMEReaction']", found=str(over))
     k = pkg.method("KROMEReaction", "preprocessing")
     kfl = Flow(k, "naunet/reactions/kromereaction.py")
-    drops = [f for f in kfl.facts if f.kind == "return" and f.value == ("const", "")]
-    keeps = [f for f in kfl.facts if f.kind == "return" and f.value != ("const", "")]
-    pref = set()
-    for f in drops:
-        for g, pol in f.guards:
-            if pol:
-                for x in walk(simp(g)):
-                    if isinstance(x, tuple) and len(x) == 5 and x[0] == "meth" and x[2] == "startswith":
-                        a = x[3][0]
-                        pref |= set(y[1] for y in (a[1] if a[0] == "tuple" else (a,)) if y[0] == "const")
-    ctx.check(pref == {"#", "//", "@format:", "@var", "@common:"} and len(keeps) == 1 and simp(keeps[0].value) == ("meth", ("param", "line"), "strip", (), ()),
-              "R1", "KROMEReaction.preprocessing", ("naunet/reactions/kromereaction.py", k.lineno),
-              "KROME drops exactly comment (#, //) and directive (@format:, @var, @common:) lines and keeps every other line (stripped)", found=str(sorted(pref)))
+    # by paths, whatever the arrangement of the returns: exactly one path keeps the line (returns line.strip()); it is the path on
+    # which the line starts with none of the comment / directive prefixes; every other path returns ""
+    K = "naunet/reactions/kromereaction.py"
+    rets = [f for f in kfl.facts if f.kind == "return"]
+    keeps = [f for f in rets if simp(f.value) != ("const", "")]
+    LINE = ("param", k.args.args[-1].arg) if k.args.args else ("param", "line")
+    if len(keeps) != 1 or simp(keeps[0].value) != ("meth", LINE, "strip", (), ()) or keeps[0].loops:
+        if any(simp(f.value)[0] not in ("const", "meth", "param") for f in keeps) or not keeps:
+            ctx.unrec("R1", "KROMEReaction.preprocessing", (K, k.lineno), "cannot see which lines are kept: expected one `return line.strip()` and `return \"\"` elsewhere")
+        else:
+            ctx.bad("R1", "KROMEReaction.preprocessing", (K, k.lineno), "KROME keeps every non-comment, non-directive line stripped and nothing else",
+                    expected="one return of line.strip()", found="; ".join(show(simp(f.value))[:40] for f in keeps))
+    else:
+        pref, foreign = set(), []
+        for g, pol in keeps[0].guards:
+            g = simp(g)
+            if g[0] == "meth" and g[1] == LINE and g[2] == "startswith" and len(g[3]) == 1 and not g[4] and not pol:
+                a = g[3][0]
+                lits = [y[1] for y in (a[1] if a[0] == "tuple" else (a,)) if y[0] == "const"]
+                if len(lits) == len(a[1] if a[0] == "tuple" else (a,)):
+                    pref |= set(lits)
+                    continue
+            foreign.append((g, pol))
+        want = {"#", "//", "@format:", "@var", "@common:"}
+        if foreign and not (pref - want):
+            ctx.unrec("R1", "KROMEReaction.preprocessing", (K, k.lineno), "the kept line is subject to a condition this rule cannot read: " + "; ".join(show(g)[:60] for g, _ in foreign)[:160])
+        else:
+            ctx.check(pref == want and not foreign, "R1", "KROMEReaction.preprocessing", (K, k.lineno),
+                      "KROME drops exactly comment (#, //) and directive (@format:, @var, @common:) lines and keeps every other line (stripped)",
+                      expected=str(sorted(want)), found=str(sorted(pref)) + ("; other conditions: " + "; ".join(show(g)[:50] for g, _ in foreign) if foreign else ""))
     # every parser guards against blank input
     n = 0
     for cls in ("Reaction", "KIDAReaction", "UMISTReaction", "LEEDSReaction", "UCLCHEMReaction", "KROMEReaction"):
@@ -204,9 +221,37 @@ def _r2(ctx, pkg):
     fn = pkg.method("UCLCHEMReaction", "_parse_string")
     fl = Flow(fn, "naunet/reactions/uclchemreaction.py")
     # the keyword list is found by role: it is what the tokens are tested against (`tok not in <list>`) in the comprehensions
-    # that create the reactants and the products
-    WANT = ("list", (("star", ("meth", ("attr", SELF, "reactant2type"), "keys", (), ())), ("const", "NAN")))
-    WANT2 = ("list", (("star", ("attr", SELF, "reactant2type")), ("const", "NAN")))       # iterating a dict iterates its keys
+    # that create the reactants and the products -- as a filter of its own or as one conjunct of the filter
+    def conjuncts(cs):
+        out = []
+        for c in cs:
+            c = simp(c)
+            out.extend(conjuncts(c[2]) if c[0] == "bool" and c[1] == "And" else [c])
+        return out
+
+    def members(v):
+        """elements of a list value written as a literal, a concatenation of lists, list(<iterable>): [elt | ("star", iterable)] or None"""
+        v = simp(v)
+        if v[0] in ("list", "tuple", "set"):
+            out = []
+            for e in v[1]:
+                if e[0] == "star":
+                    sub = members(e[1])
+                    out.extend(sub if sub is not None and e[1][0] in ("list", "tuple", "set", "binop") else [("star", keys_of(e[1]))])
+                else:
+                    out.append(e)
+            return out
+        if v[0] == "binop" and v[1] == "Add":
+            a, b = members(v[2]), members(v[3])
+            return a + b if a is not None and b is not None else None
+        if v[0] == "call" and v[1] in (("global", "list"), ("global", "tuple"), ("global", "sorted")) and len(v[2]) == 1 and not v[3]:
+            return [("star", keys_of(v[2][0]))]
+        return None
+
+    def keys_of(d):
+        # iterating a dict iterates its keys
+        return d[1] if d[0] == "meth" and d[2] == "keys" and not d[3] else d
+    WANT = {("star", ("attr", SELF, "reactant2type")), ("const", "NAN")}
     lists = []
     for attr in ("reactants", "products"):
         st = [f for f in fl.facts if f.kind == "attrstore" and f.target == attr]
@@ -215,24 +260,50 @@ def _r2(ctx, pkg):
             m = as_map(simp(st[-1].value))
             if m:
                 bv, body, base, ifs = m
-                ks = [c[2][1] for c in ifs if c[0] == "cmp" and c[1] == ("NotIn",) and c[2][0] == bv]
+                ks = [c[2][1] for c in conjuncts(ifs) if c[0] == "cmp" and c[1] == ("NotIn",) and c[2][0] == bv]
                 good = bool(ks)
                 lists += ks
+            elif st:
+                ctx.unrec("R2", f"UCLCHEM:{attr}:keyword filter", ("naunet/reactions/uclchemreaction.py", st[-1].line), "the list is not built by a comprehension this rule can read")
+                continue
         ctx.check(good, "R2", f"UCLCHEM:{attr}:keyword filter", ("naunet/reactions/uclchemreaction.py", st[-1].line if st else fn.lineno),
                   f"tokens of the keyword list are removed before the {attr} are created")
-    ok = len(lists) == 2 and all(simp(k) in (WANT, WANT2) for k in lists)
-    ctx.check(ok, "R2", "UCLCHEM:kwlist", ("naunet/reactions/uclchemreaction.py", fn.lineno), "the keyword list is every key of reactant2type plus the filler NAN",
-              found="; ".join(show(simp(k))[:100] for k in lists) or "missing")
+    got = [members(k) for k in lists]
+    if lists and any(g is None for g in got):
+        ctx.unrec("R2", "UCLCHEM:kwlist", ("naunet/reactions/uclchemreaction.py", fn.lineno), "the keyword list is not a literal / concatenation this rule can read: " + "; ".join(show(simp(k))[:80] for k in lists))
+    else:
+        ok = len(lists) == 2 and all(set(g) == WANT for g in got)
+        ctx.check(ok, "R2", "UCLCHEM:kwlist", ("naunet/reactions/uclchemreaction.py", fn.lineno), "the keyword list is every key of reactant2type plus the filler NAN",
+                  found="; ".join(show(simp(k))[:100] for k in lists) or "missing")
     # KROME: reactants/products appended only when _create_species(value) is truthy
     kfn = pkg.method("KROMEReaction", "_parse_string")
     kfl = Flow(kfn, "naunet/reactions/kromereaction.py")
-    aps = [f for f in kfl.facts if f.kind == "call" and f.target == "append" and f.value[1][0] == "attr" and f.value[1][2] in ("reactants", "products")]
-    good = len(aps) == 2
-    for f in aps:
-        arg = simp(f.value[3][0])
-        good = good and arg[0] == "meth" and arg[2] == "_create_species" and any(pol and any(x == arg for x in walk(simp(g))) for g, pol in f.guards)
-    ctx.check(good, "R2", "KROME:append only real species", ("naunet/reactions/kromereaction.py", kfn.lineno),
-              "a token is appended only when _create_species(token) is not None (pseudo-elements are dropped)")
+    # every append whose receiver is self.reactants / self.products -- named directly or through a local that stands for one of the
+    # two (`side = self.reactants if key == "r" else self.products`)
+    LISTS = {("attr", SELF, "reactants"): "reactants", ("attr", SELF, "products"): "products"}
+
+    def arms(v):
+        v = simp(v)
+        return arms(v[2]) + arms(v[3]) if v[0] in ("phi", "ifexp") else [v]
+    sites, blind = [], []
+    for f in kfl.facts:
+        if f.kind == "call" and f.target in ("append", "extend", "insert") and f.value[0] == "meth" and all(a in LISTS for a in arms(f.value[1])):
+            (sites if f.target == "append" and len(f.value[3]) == 1 else blind).append((f, {LISTS[a] for a in arms(f.value[1])}, f.value[3]))
+        elif f.kind in ("append", "mutate") and isinstance(f.target, str):
+            prev = [v for v, loops, guards, line, seq in kfl.assigns.get(f.target, []) if seq < f.seq]
+            if prev and all(a in LISTS for a in arms(prev[-1])):
+                (sites if f.kind == "append" and f.op == "append" else blind).append((f, {LISTS[a] for a in arms(prev[-1])}, (f.value,)))
+    covered = set().union(*[c for _, c, _ in sites]) if sites else set()
+    if blind or covered != {"reactants", "products"}:
+        ctx.unrec("R2", "KROME:append only real species", ("naunet/reactions/kromereaction.py", kfn.lineno),
+                  f"the reactant / product lists are not (only) filled by append calls this rule can read (appends seen for {sorted(covered)})")
+    else:
+        good = True
+        for f, _, args in sites:
+            arg = simp(args[0])
+            good = good and arg[0] == "meth" and arg[2] == "_create_species" and any(pol and any(x == arg for x in walk(simp(g))) for g, pol in f.guards)
+        ctx.check(good, "R2", "KROME:append only real species", ("naunet/reactions/kromereaction.py", kfn.lineno),
+                  "a token is appended only when _create_species(token) is not None (pseudo-elements are dropped)")
 
 
 # ------------------------------------------------------------------ R3 / R5 for split formats
@@ -512,4 +583,35 @@ MUTANTS = [
 BENIGN = [
     {"name": "enum-member-renamed", "edits": [{"file": UC, "old": "UCLCHEM_HD", "new": "UCLCHEM_H2D", "count": 3}]},
     {"name": "factory-strip-first", "file": NET, "old": "    if react_string and react_string.strip():", "new": "    if react_string is not None and react_string.strip():"},
+]
+KR = "naunet/reactions/kromereaction.py"
+_KR_RP = ('                elif key == "r" and self._create_species(value):\n                    self.reactants.append(self._create_species(value))\n'
+          '                elif key == "p" and self._create_species(value):\n                    self.products.append(self._create_species(value))\n')
+_KR_PRE = ('        elif line.startswith("@format:"):\n            cls.reacformat = line.replace("@format:", "")\n            return ""\n        elif line.startswith("@var"):\n'
+           '            if "Hnuclei" not in line:\n                cls._user_vars.append(line.replace("@var:", "").strip())\n            return ""\n'
+           '        elif line.startswith("@common:"):\n            commonlist = line.replace("@common:", "").strip().split(",")\n            cls._user_commons.extend(commonlist)\n            return ""\n'
+           '        else:\n            return line.strip()\n')
+
+
+def _kr_pre(extra=""):
+    return ('\n        if line.startswith("@format:"):\n            cls.reacformat = line.replace("@format:", "")\n        elif line.startswith("@var"):\n'
+            '            if "Hnuclei" not in line:\n                cls._user_vars.append(line.replace("@var:", "").strip())\n'
+            '        elif line.startswith("@common:"):\n            commonlist = line.replace("@common:", "").strip().split(",")\n            cls._user_commons.extend(commonlist)\n'
+            + extra + '        else:\n            return line.strip()\n\n        return ""\n')
+
+
+MUTANTS += [
+    {"name": "krome-product-appended-unfiltered", "file": KR, "old": 'elif key == "p" and self._create_species(value):', "new": 'elif key == "p":', "rules": ["R2"]},
+    {"name": "krome-merged-side-unfiltered", "file": KR, "old": _KR_RP, "new": '                elif key in ("r", "p"):\n                    side = self.reactants if key == "r" else self.products\n                    side.append(self._create_species(value))\n', "rules": ["R2"]},
+    {"name": "krome-single-exit-drops-bang-lines", "file": KR, "old": _KR_PRE, "new": _kr_pre('        elif line.startswith("!"):\n            pass\n'), "rules": ["R1"]},
+    {"name": "uclchem-kwlist-concat-lacks-nan", "file": UC, "old": 'kwlist = [*self.reactant2type.keys(), "NAN"]', "new": 'kwlist = list(self.reactant2type) + ["NA"]', "rules": ["R2"]},
+    {"name": "umist-named-record-13-fields", "file": U, "old": '            idx, code, *rps, _, a, b, c, lt, ut = react_string.split(":")[:14]\n', "new": '            columns = react_string.split(":")[:13]\n            idx, code, *rps, _, a, b, c, lt, ut = columns\n', "rules": ["R3"]},
+]
+BENIGN += [
+    {"name": "krome-species-arms-merged", "file": KR, "old": _KR_RP, "new": '                elif key in ("r", "p"):\n                    if self._create_species(value):\n                        side = self.reactants if key == "r" else self.products\n                        side.append(self._create_species(value))\n'},
+    {"name": "krome-preprocessing-single-exit", "file": KR, "old": _KR_PRE, "new": _kr_pre()},
+    {"name": "uclchem-kwlist-concatenated-filter-conjunct", "edits": [
+        {"file": UC, "old": 'kwlist = [*self.reactant2type.keys(), "NAN"]', "new": 'kwlist = list(self.reactant2type) + ["NAN"]'}]},
+    {"name": "umist-record-named-first", "file": U, "old": '            idx, code, *rps, _, a, b, c, lt, ut = react_string.split(":")[:14]\n', "new": '            columns = react_string.split(":")[:14]\n            idx, code, *rps, _, a, b, c, lt, ut = columns\n'},
+    {"name": "kida-tail-named-first", "file": K, "old": "            a, b, c, _, _, _, itype, lt, ut, form, idx, _, _ = react_string[\n                rlen + plen :\n            ].split()\n", "new": "            numbers = react_string[rlen + plen :].split()\n            a, b, c, _, _, _, itype, lt, ut, form, idx, _, _ = numbers\n"},
 ]
